@@ -25,6 +25,11 @@ CONFIGS = {
     "K11": dict(lend=None, fee=("0.25", 2), liq=(25, 10), init=(("USD", "250.50"),), bp=1, qp=2),
     "K12": dict(lend=dict(req="0.5", isym="USD", period=10), fee=None, liq=None, init=(("USD", 1),), bp=0, qp=2),  # tiny equity
     "K13": dict(lend=dict(req="0.5", isym="USD", period=3), fee=None, liq=None, init=(("USD", 300), ("BTC", 1)), bp=0, qp=2),
+    # margin account valued in the base symbol: every valuation goes through the inverse of the only pair
+    "K15": dict(lend=dict(req="0.5", isym="same", period=10, quote="BTC"), fee=None, liq=None, init=(("BTC", 1),), bp=0, qp=2),
+    # cross pair ETH/BTC next to ETH/USD and BTC/USD; the minimum fee (0.5 BTC) exceeds the proceeds of a unit order
+    "K16": dict(lend=dict(req="0.5", isym="same", period=10), fee=("0.25", "0.5"), liq=None, init=(("USD", 10000),), bp=8, qp=2,
+                pairs=3),
     "K14": dict(lend=dict(req="0.5", isym="same", period=7, pct="2.5"), fee=(1, 0), liq=(25, 10),
                 init=(("USD", 500), ("BTC", 2)), bp=2, qp=2),
 }
@@ -49,6 +54,10 @@ def plan(prop, tier, spec):
         alpha = exch.alphabet(cfg, level)
         bars = [a for a in alpha if a[0] == "bar"]
         for b in bars:
+            if depth >= 6:
+                # deep and narrow: one shard per first bar keeps the de-duplication effective
+                out.append(("bfs", name, level, depth, [b]))
+                continue
             for a2 in alpha:
                 out.append(("bfs", name, level, depth, [b, a2]))
     for name, depth in spec["conf_" + tier]:
@@ -107,16 +116,19 @@ def run_scenario(prop, sc, tier):
 
     def on_violation(hist, bad):
         found.append((hist, bad))
-    # the transitions of the prefix itself are checked by the shard whose second action comes first in the alphabet
-    if prefix[1] == alpha[0]:
+    # the transitions of the prefix itself: the first one is checked by the shard whose second action comes first in the
+    # alphabet (or by the shard itself when the prefix is a single action), the second one by every shard
+    if len(prefix) == 1 or prefix[1] == alpha[0]:
         out = exch_bfs.transition(cfg, [], prefix[0], [prop])
+        res.transitions += 1
         if out and out[2]:
             found.append(([prefix[0]], out[2]))
-    out = exch_bfs.transition(cfg, prefix[:1], prefix[1], [prop])
-    res.transitions += 1
-    res.executions += 1
-    if out and out[2]:
-        found.append((list(prefix), out[2]))
+    if len(prefix) > 1:
+        out = exch_bfs.transition(cfg, prefix[:1], prefix[1], [prop])
+        res.transitions += 1
+        res.executions += 1
+        if out and out[2]:
+            found.append((list(prefix), out[2]))
     exch_bfs.bfs(cfg, alpha, depth, [prop], res, prefix=prefix, on_violation=on_violation)
     if not res.samples:
         res.samples.append(dict(config=name, history_prefix=[list(a) for a in prefix], depth=depth, alphabet=len(alpha)))
